@@ -105,7 +105,14 @@ func (g *G) genC07(p *Plan) {
 							op.Faults = append(op.Faults, Fault{Kind: "stall", N: g.n(1, 4)})
 						}
 					} else {
-						op = Op{K: "mpu-complete", Up: g.rng.Intn(nup), Parts: []PartRef{{N: 1}, {N: 2}, {N: 3}}[:g.n(1, 3)]}
+						switch r := g.rng.Intn(10); {
+						case r < 7:
+							op = Op{K: "mpu-complete", Up: g.rng.Intn(nup), Parts: []PartRef{{N: 1}, {N: 2}, {N: 3}}[:g.n(1, 3)]}
+						case r < 8:
+							op = Op{K: "mpu-abort", Up: g.rng.Intn(nup)}
+						default:
+							op = Op{K: "mpu-lsparts", Up: g.rng.Intn(nup)}
+						}
 					}
 				} else {
 					op = Op{K: "get", B: b, Key: key()}
